@@ -147,7 +147,7 @@ fn eval(w: &mut World, p: &P13, rec: &mut Rec) -> bool {
                 rec.viol("C13_in_tolerance_deposit_refused", format!("{:?}: {}", p, out.err_text()));
             }
             if must_reject && out.is_ok() {
-                rec.viol("C13_out_of_tolerance_deposit_accepted", format!("{:?}", p));
+                rec.viol_kf("C13_out_of_tolerance_deposit_accepted", format!("{:?}", p), format!("{:?}: the deposit ratio is outside the tolerance of the pool ratio but the deposit was accepted", p));
             }
             true
         }
@@ -256,7 +256,7 @@ pub fn points(tier: Tier) -> Vec<P13> {
     let mut v = vec![];
     let tols: Vec<Option<u128>> = vec![None, Some(0), Some(E18 / 1000), Some(E18 / 100), Some(E18 / 20), Some(E18 / 2), Some(E18 * 6 / 10), Some(E18), Some(2 * E18)];
     let feesets = tier.pick(vec![zero_fees(), std_fees()], vec![zero_fees(), std_fees(), FeeSpec { p: 0, s: 30, b: 0, x: vec![] }, cap_fees()]);
-    let pools: Vec<(u128, u128)> = tier.pick(vec![(1_000_000, 2_000_000), (10u128.pow(12), 3 * 10u128.pow(9)), (5 * 10u128.pow(18), 10u128.pow(24))], vec![(1_000_000, 2_000_000), (1001, 1003), (10u128.pow(12), 3 * 10u128.pow(9)), (5 * 10u128.pow(18), 10u128.pow(24)), (7 * 10u128.pow(24), 7 * 10u128.pow(24) + 1), (10u128.pow(9), 10u128.pow(15))]);
+    let pools: Vec<(u128, u128)> = tier.pick(vec![(1_000_000, 2_000_000), (10u128.pow(12), 3 * 10u128.pow(9)), (5 * 10u128.pow(18), 10u128.pow(24)), (10u128.pow(24), 10_000), (3 * 10u128.pow(18) + 1, 9_999)], vec![(1_000_000, 2_000_000), (1001, 1003), (10u128.pow(12), 3 * 10u128.pow(9)), (5 * 10u128.pow(18), 10u128.pow(24)), (7 * 10u128.pow(24), 7 * 10u128.pow(24) + 1), (10u128.pow(9), 10u128.pow(15)), (10u128.pow(24), 10_000), (3 * 10u128.pow(18) + 1, 9_999), (10u128.pow(27), 70_000)]);
     for (x, y) in &pools {
         for f in &feesets {
             let ftot: u128 = (f.p + f.s + f.b + f.x.iter().sum::<u64>()) as u128; // bps
